@@ -135,6 +135,8 @@ type Frame struct {
 	curArgTypes []types.Type
 	curResTypes *types.Tuple
 	selfTerm string
+	parent   *Frame
+	private  []*Loc // non-escaping local cells: untouched by callees
 	siteKeys map[ssa.Instruction]string
 	defers   []*ssa.Defer
 }
